@@ -1,18 +1,24 @@
 (* C16 — Obfuscation hides every value that is not explicitly excluded.
-   Final statements only; proofs are in Proofs.v.
+   Final statements only; proofs are in Proofs.v / ProofsAll.v.
 
-   [obfuscate_json] models Obfuscator.ObfuscateJSON with
-   patches/C16/fix-F-C16.patch applied; [collector_body] the body path of the HAR
-   collector.  Every statement quantifies over all hash functions H, all
-   exclusion sets (arbitrary byte strings, both notations) and all documents
-   subject only to the decidable side conditions written in it:
-     nodup_keys j  — no object of the document repeats a key
-                     (the walk keeps one entry per distinct key);
-     clean_keys j  — no key contains '.' or '[' (needed only where a statement
-                     speaks of the path an exclusion *denotes*: the notations
-                     cannot escape these characters). *)
+   [obfuscate_json] models Obfuscator.ObfuscateJSON as it is in /repo (with
+   fix F-C16: exact match of the body-relative exclusion text); [collector_body]
+   the body path of the HAR collector; [obfuscate_body] / [plugin_body] the two
+   call sites as a whole (disabled, empty, unparsable bodies).  Every statement
+   quantifies over all hash functions H, all exclusion sets (arbitrary byte
+   strings, both notations) and all documents.
+
+   Part A (below, unchanged): positional statements under the decidable side
+   conditions nodup_keys j / clean_keys j.
+   Part B: the same without side condition where the statement survives (hiding
+   for ALL documents), and otherwise the full statement, its refutation and the
+   statement under the EXACT decidable condition of the open finding:
+     F-C16c  ambiguous e j   — the text of exclusion e is the cursor of two
+                               different paths of j (needs a key with '.'/'[');
+     F-C16d  nodup_walked .. — an object the walk rebuilds repeats a key
+                               (the rebuilt object keeps one entry per key). *)
 From Coq Require Import List ZArith Bool.
-From Verif Require Import C16.Model C16.Spec C16.Proofs.
+From Verif Require Import C16.Model C16.Spec C16.Proofs C16.ProofsAll.
 Import ListNotations.
 Open Scope Z_scope.
 
@@ -173,4 +179,303 @@ Example C16_collector_on_doc :
   collector_body Hx true [pre_response ++ e_user_name] doc = obfuscate_json Hx [] doc
   /\ collector_body Hx true [e_user_name_jp] doc = obfuscate_json Hx [e_user_name] doc
   /\ collector_body Hx true [e_user_name] doc = obfuscate_json Hx [] doc.
+Proof. vm_compute. repeat split; reflexivity. Qed.
+
+(* ================================================================== *)
+(* Part B                                                              *)
+
+(* ---- clause 1, safety half, ALL documents ------------------------- *)
+
+(* Whatever the document (repeated keys, keys with '.'/'[', any nesting) and
+   whatever the exclusions: every primitive leaf of the OUTPUT, at structured
+   path q, is
+     - an input primitive leaf at the same path q, verbatim, and q lies on or
+       under a path written by some exclusion, or
+     - the string H(text v) of an input primitive leaf v at the same path q,
+       and q is not on or under any excluded path.
+   Nothing else can appear in the output: no value that is not excluded leaves
+   in clear, no value moves to another path. *)
+Theorem C16_hiding_all_documents : forall H excl j ps q w,
+  descend (obfuscate_json H excl j) ps = Some (q, w) -> is_prim w = true ->
+  exists ps' v, descend j ps' = Some (q, v) /\ is_prim v = true /\
+    ((on_excluded excl q /\ w = v) \/
+     (~ on_excluded excl q /\ w = JStr (H (text v)))).
+Proof. exact hiding_all_documents. Qed.
+Print Assumptions C16_hiding_all_documents.
+
+Theorem C16_hiding_all_documents_collector : forall H req excl j ps q w,
+  descend (collector_body H req excl j) ps = Some (q, w) -> is_prim w = true ->
+  exists ps' v, descend j ps' = Some (q, v) /\ is_prim v = true /\
+    ((on_excluded (filter_body_exclusions req excl) q /\ w = v) \/
+     (~ on_excluded (filter_body_exclusions req excl) q /\ w = JStr (H (text v)))).
+Proof. intros H req excl j. exact (hiding_all_documents H _ j). Qed.
+Print Assumptions C16_hiding_all_documents_collector.
+
+(* [on_excluded] is decided by a boolean function of the exclusions and the path *)
+Theorem C16_on_excluded_decidable : forall excl q,
+  excl_upto (excluded_fixed excl) [] q = true <-> on_excluded excl q.
+Proof. exact on_excluded_iff. Qed.
+Print Assumptions C16_on_excluded_decidable.
+
+(* ---- clause 2: structure; finding F-C16d -------------------------- *)
+
+Definition C16_structure_full : Prop :=
+  forall H excl j, shape_of (obfuscate_json H excl j) = shape_of j.
+
+Definition s_a : bytes := [97].
+Definition s_b : bytes := [98].
+(* {"a":"s","b":true,"a":"t"} *)
+Definition doc_dup : json :=
+  JObj [(s_a, JStr [115]); (s_b, JBool true); (s_a, JStr [116])].
+
+Theorem C16_structure_full_refuted : ~ C16_structure_full.
+Proof. intro C. specialize (C Hx [] doc_dup). vm_compute in C. discriminate C. Qed.
+Print Assumptions C16_structure_full_refuted.
+
+(* the structure is preserved EXACTLY when no object the walk rebuilds repeats a
+   key (objects inside an excluded subtree are returned whole, repeated keys
+   included) *)
+Theorem C16_structure_holds_outside_repeated_keys : forall H excl j,
+  shape_of (obfuscate_json H excl j) = shape_of j <->
+  nodup_walked (excluded_fixed excl) [] j = true.
+Proof. intros H excl j. apply shape_obf_exact. Qed.
+Print Assumptions C16_structure_holds_outside_repeated_keys.
+
+Theorem C16_structure_collector_holds_outside_repeated_keys : forall H req excl j,
+  shape_of (collector_body H req excl j) = shape_of j <->
+  nodup_walked (excluded_fixed (filter_body_exclusions req excl)) [] j = true.
+Proof. intros H req excl j. apply shape_obf_exact. Qed.
+Print Assumptions C16_structure_collector_holds_outside_repeated_keys.
+
+(* nodup_keys (Part A) is a special case of the exact condition *)
+Theorem C16_nodup_keys_is_outside_repeated_keys : forall excl j,
+  nodup_keys j = true -> nodup_walked (excluded_fixed excl) [] j = true.
+Proof. intros excl j. apply nodup_keys_walked. Qed.
+Print Assumptions C16_nodup_keys_is_outside_repeated_keys.
+
+(* ---- clauses 1 and 3 by position, under the exact condition -------- *)
+
+(* C16_hidden_or_excluded with nodup_keys narrowed to nodup_walked *)
+Theorem C16_hidden_or_excluded_holds_outside_repeated_keys : forall H excl j ps q v,
+  nodup_walked (excluded_fixed excl) [] j = true ->
+  descend j ps = Some (q, v) -> is_prim v = true ->
+  (on_excluded excl q /\
+   descend (obfuscate_json H excl j) ps = Some (q, v))
+  \/
+  (~ on_excluded excl q /\
+   descend (obfuscate_json H excl j) ps = Some (q, JStr (H (text v)))).
+Proof. exact hidden_or_excluded_w. Qed.
+Print Assumptions C16_hidden_or_excluded_holds_outside_repeated_keys.
+
+Theorem C16_hidden_or_excluded_collector : forall H req excl j ps q v,
+  nodup_walked (excluded_fixed (filter_body_exclusions req excl)) [] j = true ->
+  descend j ps = Some (q, v) -> is_prim v = true ->
+  (on_excluded (filter_body_exclusions req excl) q /\
+   descend (collector_body H req excl j) ps = Some (q, v))
+  \/
+  (~ on_excluded (filter_body_exclusions req excl) q /\
+   descend (collector_body H req excl j) ps = Some (q, JStr (H (text v)))).
+Proof. intros H req excl j. exact (hidden_or_excluded_w H _ j). Qed.
+Print Assumptions C16_hidden_or_excluded_collector.
+
+(* clause 3 for containers too: ANY node (object, array or leaf) on or under an
+   excluded path is found verbatim at the same position of the output *)
+Theorem C16_excluded_subtree_verbatim : forall H excl j ps q x,
+  nodup_walked (excluded_fixed excl) [] j = true ->
+  descend j ps = Some (q, x) -> on_excluded excl q ->
+  descend (obfuscate_json H excl j) ps = Some (q, x).
+Proof. exact excluded_subtree_verbatim. Qed.
+Print Assumptions C16_excluded_subtree_verbatim.
+
+(* ---- clause 4: no cross exposure; finding F-C16c ------------------- *)
+
+(* Full statement, ALL documents: the leaves one exclusion keeps in clear
+   (whatever the hash function) all lie on or under ONE structured path, whose
+   text is the exclusion. *)
+Definition C16_no_cross_exposure_full : Prop :=
+  forall e j ps q v ps' q' v',
+    kept_by e j ps q v -> kept_by e j ps' q' v' ->
+    exists p, cursor p = body_path e /\ is_prefix p q /\ is_prefix p q'.
+
+Definition s_ab : bytes := [97;46;98].                 (* "a.b" *)
+Definition e_a_b : bytes := [46;97;46;98].             (* ".a.b" *)
+(* {"a.b":"s","a":{"b":"t"}} *)
+Definition doc_amb : json :=
+  JObj [(s_ab, JStr [115]); (s_a, JObj [(s_b, JStr [116])])].
+
+(* the exclusion ".a.b" keeps BOTH the value of key "a.b" and the value of key
+   "b" under key "a": whichever the user meant, the other one is exposed *)
+Theorem C16_no_cross_exposure_full_refuted : ~ C16_no_cross_exposure_full.
+Proof.
+  intro C.
+  destruct (C e_a_b doc_amb [0%nat] [PKey s_ab] (JStr [115])
+              [1%nat; 0%nat] [PKey s_a; PKey s_b] (JStr [116]))
+    as [p [Ec [[r1 E1] [r2 E2]]]].
+  - split; [reflexivity|]. split; [reflexivity|]. intro H. reflexivity.
+  - split; [reflexivity|]. split; [reflexivity|]. intro H. reflexivity.
+  - destruct p as [|s p]; [vm_compute in Ec; discriminate Ec|].
+    simpl in E1, E2. inversion E1. inversion E2. subst s. discriminate.
+Qed.
+Print Assumptions C16_no_cross_exposure_full_refuted.
+
+(* outside the finding — the exclusion text is not the cursor of two different
+   paths of the document (decidable, [ambiguous]) — the full statement holds,
+   for ALL such documents (repeated keys included) *)
+Theorem C16_no_cross_exposure_holds_outside_ambiguous_notation :
+  forall e j ps q v ps' q' v',
+    ambiguous e j = false ->
+    kept_by e j ps q v -> kept_by e j ps' q' v' ->
+    exists p, cursor p = body_path e /\ is_prefix p q /\ is_prefix p q'.
+Proof. exact no_cross_exposure_outside_ambiguous. Qed.
+Print Assumptions C16_no_cross_exposure_holds_outside_ambiguous_notation.
+
+(* [ambiguous] says exactly: two different paths of the document carry the text *)
+Theorem C16_ambiguous_iff : forall e j,
+  ambiguous e j = true <-> exists p p', names e j p /\ names e j p' /\ p <> p'.
+Proof. exact ambiguous_two_names. Qed.
+Print Assumptions C16_ambiguous_iff.
+
+(* clean_keys (Part A) is a special case: no ambiguity without '.'/'[' in keys *)
+Theorem C16_clean_keys_is_outside_ambiguous_notation : forall e j,
+  clean_keys j = true -> ambiguous e j = false.
+Proof. exact clean_keys_unambiguous. Qed.
+Print Assumptions C16_clean_keys_is_outside_ambiguous_notation.
+
+(* sets of exclusions, no condition on keys: a leaf is kept iff it lies on or
+   under a path of THIS document that some exclusion names (its text is the
+   exclusion); outside [ambiguous] that path is unique per exclusion *)
+Theorem C16_kept_iff_named : forall H excl j ps q v,
+  nodup_walked (excluded_fixed excl) [] j = true ->
+  descend j ps = Some (q, v) -> is_prim v = true ->
+  ((exists e p, In e excl /\ names e j p /\ is_prefix p q) /\
+   descend (obfuscate_json H excl j) ps = Some (q, v))
+  \/
+  (~ (exists e p, In e excl /\ names e j p /\ is_prefix p q) /\
+   descend (obfuscate_json H excl j) ps = Some (q, JStr (H (text v)))).
+Proof.
+  intros H excl j ps q v Hnd Hd Hp.
+  destruct (hidden_or_excluded_w H excl j ps q v Hnd Hd Hp) as [[Hon E]|[Hon E]].
+  - left. split; [apply (on_excluded_named excl j ps q v Hd); exact Hon|exact E].
+  - right. split; [|exact E]. intro C. apply Hon.
+    apply (on_excluded_named excl j ps q v Hd). exact C.
+Qed.
+Print Assumptions C16_kept_iff_named.
+
+Theorem C16_named_unique_outside_ambiguous_notation : forall e j p p',
+  ambiguous e j = false -> names e j p -> names e j p' -> p = p'.
+Proof. exact named_unique. Qed.
+Print Assumptions C16_named_unique_outside_ambiguous_notation.
+
+(* the notation-level statements of Part A (C16_kept_iff_denoted,
+   C16_no_cross_exposure) with their hypotheses narrowed: nodup_keys j to the
+   exact nodup_walked, clean_keys j to clean_path q (only the keys on the way to
+   the leaf have to be writable in the notations) *)
+Theorem C16_kept_iff_denoted_clean_path : forall H excl j ps q v,
+  nodup_walked (excluded_fixed excl) [] j = true -> clean_path q = true ->
+  descend j ps = Some (q, v) -> is_prim v = true ->
+  ((exists e p, In e excl /\ denotes e p /\ is_prefix p q) /\
+   descend (obfuscate_json H excl j) ps = Some (q, v))
+  \/
+  (~ (exists e p, In e excl /\ denotes e p /\ is_prefix p q) /\
+   descend (obfuscate_json H excl j) ps = Some (q, JStr (H (text v)))).
+Proof. exact kept_iff_denoted_w. Qed.
+Print Assumptions C16_kept_iff_denoted_clean_path.
+
+Theorem C16_no_cross_exposure_clean_path : forall H excl j ps q v,
+  nodup_walked (excluded_fixed excl) [] j = true -> clean_path q = true ->
+  descend j ps = Some (q, v) -> is_prim v = true ->
+  (forall e p, In e excl -> denotes e p -> ~ is_prefix p q) ->
+  descend (obfuscate_json H excl j) ps = Some (q, JStr (H (text v))).
+Proof. exact no_cross_exposure_w. Qed.
+Print Assumptions C16_no_cross_exposure_clean_path.
+
+(* on the ambiguous witness the top-level "other"-like clean leaf is still
+   covered: path [a; b] is clean, path ["a.b"] is not *)
+Example C16_clean_path_on_witness :
+  clean_path [PKey s_a; PKey s_b] = true /\ clean_path [PKey s_ab] = false /\
+  clean_keys doc_amb = false.
+Proof. vm_compute. repeat split; reflexivity. Qed.
+
+(* ---- collector ----------------------------------------------------- *)
+
+(* an exclusion that does not start with the prefix of the direction being
+   obfuscated (other direction, plain cursor notation, headers, ...) is ignored *)
+Theorem C16_collector_ignores : forall H req excl1 e excl2 j,
+  has_prefix (dir_prefix req) e = false ->
+  collector_body H req (excl1 ++ e :: excl2) j = collector_body H req (excl1 ++ excl2) j.
+Proof. exact collector_ignores. Qed.
+Print Assumptions C16_collector_ignores.
+
+(* ---- the call sites as a whole (clause 0) -------------------------- *)
+
+(* collector, obfuscation enabled: the body leaves as "" (empty body), as the
+   hash of the whole text (not JSON), or as the obfuscated document *)
+Theorem C16_body_as_a_whole : forall H req excl body parsed,
+  obfuscate_body H true req excl body parsed =
+  match body, parsed with
+  | [], _ => OutText []
+  | _, None => OutText (H body)
+  | _, Some j => OutJson (collector_body H req excl j)
+  end.
+Proof. intros H req excl body parsed. destruct body; reflexivity. Qed.
+Print Assumptions C16_body_as_a_whole.
+
+Theorem C16_plugin_body_as_a_whole : forall H excl body parsed,
+  plugin_body H true excl body parsed =
+  match parsed with
+  | None => OutText (H body)
+  | Some j => OutJson (obfuscate_json H excl j)
+  end.
+Proof. reflexivity. Qed.
+Print Assumptions C16_plugin_body_as_a_whole.
+
+(* ---- Examples for Part B ------------------------------------------- *)
+
+(* the side conditions of the findings on the witnesses and on [doc] *)
+Example C16_finding_conditions :
+  ambiguous e_a_b doc_amb = true /\ nodup_keys doc_amb = true /\
+  clean_keys doc_amb = false /\
+  nodup_walked (excluded_fixed []) [] doc_dup = false /\
+  ambiguous e_user_name doc = false /\
+  nodup_walked (excluded_fixed [e_user_name]) [] doc = true /\
+  (* a repeated key inside an excluded subtree does not matter *)
+  nodup_walked (excluded_fixed [[]]) [] doc_dup = true /\
+  nodup_keys doc_dup = false.
+Proof. vm_compute. repeat split; reflexivity. Qed.
+
+(* what the walk does on the two witnesses *)
+Example C16_walk_on_witnesses :
+  obfuscate_json Hx [e_a_b] doc_amb = doc_amb /\
+  obfuscate_json Hx [] doc_dup =
+    JObj [(s_a, JStr [35;115]); (s_b, JStr [35;116;114;117;101])] /\
+  obfuscate_json Hx [[]] doc_dup = doc_dup.
+Proof. vm_compute. repeat split; reflexivity. Qed.
+
+(* kept_by is satisfiable on an unambiguous document, and the path is [user;name] *)
+Example C16_kept_by_on_doc :
+  kept_by e_user_name doc [1%nat; 0%nat] [PKey s_user; PKey s_name] (JStr [110]) /\
+  names e_user_name doc [PKey s_user; PKey s_name].
+Proof.
+  split; [split; [reflexivity|split; [reflexivity|intro H; reflexivity]]|].
+  vm_compute. left. reflexivity.
+Qed.
+
+(* hiding on a document with a repeated key: position 0 of the output carries
+   the hash of the FIRST "a"; the second "a" is dropped, not exposed *)
+Example C16_hiding_on_dup :
+  descend (obfuscate_json Hx [] doc_dup) [0%nat] = Some ([PKey s_a], JStr [35;115]) /\
+  descend doc_dup [0%nat] = Some ([PKey s_a], JStr [115]) /\
+  ~ on_excluded [] [PKey s_a].
+Proof.
+  split; [reflexivity|]. split; [reflexivity|].
+  intros [e [p [[] _]]].
+Qed.
+
+Example C16_body_cases :
+  obfuscate_body Hx true true [] [] None = OutText [] /\
+  obfuscate_body Hx true true [] [120] None = OutText [35;120] /\
+  obfuscate_body Hx false true [] [120] None = OutText [120] /\
+  plugin_body Hx true [] [] None = OutText [35] /\
+  obfuscate_body Hx true true [e_user_name_jp] [123] (Some doc) =
+    OutJson (obfuscate_json Hx [e_user_name] doc).
 Proof. vm_compute. repeat split; reflexivity. Qed.
